@@ -54,7 +54,7 @@ impl Monitor for M {
          strings. kmp_exhaustive: every pattern of length <= P and text of length T over {a,b,c} \
          (P,T = 5,12 quick; 6,13 thorough), answer compared after every element; non-trivial = text \
          contains the pattern. kmp_random: periodic patterns up to 16, texts up to 300 assembled from \
-         pattern pieces. tags: T in {2,8,64} threads behind a barrier, N creations each, several \
+         pattern pieces (each case also drives a Nevec against a never-empty Vec). tags: T in {2,8,64} threads behind a barrier, N creations each, several \
          rounds; distinct = ownership interleaving (thread ids in tag order)."
             .into()
     }
@@ -137,6 +137,7 @@ impl Monitor for M {
             ("kmp_texts", 100_000_000),
             ("kmp_overlapping_matches", 100_000),
             ("kmp_matches_starting_inside_failed_partial_match", 100_000),
+            ("nevec_ops_checked", 100_000),
             // tags
             ("tags_created", if q { 1_000_000 } else { 20_000_000 }),
             ("tags_rounds_64_threads", 10),
